@@ -85,9 +85,6 @@ func ruleHandleEvent(c *Ctx) {
 		return nil
 	}
 	sp.Branch = func(t *Tracer, fr *Frame, i *ssa.If, dir bool) []Ev {
-		if fr != t.RootFr {
-			return nil
-		}
 		if x, op, k, ok := cmpConst(i.Cond); ok {
 			if f, _ := fieldLoad(x); f == fState {
 				set := satisfying(op, k, dir, 5)
@@ -140,6 +137,15 @@ func ruleHandleEvent(c *Ctx) {
 		// range loop plumbing is not a decision of the handler
 		if e, ok := i.Cond.(*ssa.Extract); ok {
 			if _, ok := e.Tuple.(*ssa.Next); ok {
+				return nil
+			}
+		}
+		if fr != t.RootFr || i.Block() == nil {
+			return nil // inside a helper, or the synthetic view of a predicate helper
+		}
+		// a predicate helper: its own expression is classified through the view
+		if call, ok := v.(*ssa.Call); ok {
+			if sf := call.Call.StaticCallee(); sf != nil && t.isRepo(sf) && t.interesting(sf, 0) {
 				return nil
 			}
 		}
